@@ -32,8 +32,9 @@ def roles(ctx):
                     m.module, n.func) == CACHE + '.read_cached_file':
                 r.loader = m
         for e in effects_of(m):
-            if e.kind == 'substore' and e.path == 'self.file_rules' and \
-                    m.name != 'clear':
+            if (e.kind == 'substore' or e.kind in (
+                    'mutcall:update', 'mutcall:setdefault')) and \
+                    e.path == 'self.file_rules' and m.name != 'clear':
                 r.recorder = m
     if r.loader is None:
         raise AnalysisError('policy-file loader (caller of read_cached_file) '
